@@ -407,6 +407,27 @@ fn run_provenance<C: Suite>(c: &Case) -> Outcome {
             let s = pick::<C>(&grp.ids, *signers);
             let legacy = fc::keys::PublicKeyPackage::<C>::new(grp.pkp.verifying_shares().clone(), *grp.pkp.verifying_key(), None);
             session_check::<C>(&mut o, &tag, &grp.kps, &legacy, &s, &message(3), &format!("{seed}:legacy:{signers}"));
+            // a coordinator that holds the group key only (no verifying shares) can still aggregate without
+            // cheater detection, as documented for CheaterDetection::Disabled, and gets the same signature
+            {
+                let m = message(3);
+                let (nonces, comms) = commit_all::<C>(&grp.kps, &s, &format!("{seed}:keyonly:{signers}"));
+                let pkg = SigningPackage::<C>::new(comms, &m);
+                let mut shares = BTreeMap::new();
+                for id in &s {
+                    if let Ok(sh) = C::w_sign(&pkg, &nonces[id], &grp.kps[id]) {
+                        shares.insert(*id, sh);
+                    }
+                }
+                let keyonly = fc::keys::PublicKeyPackage::<C>::new(BTreeMap::new(), *grp.pkp.verifying_key(), Some(*t));
+                o.eval(true);
+                match (C::w_aggregate(&pkg, &shares, &grp.pkp), C::w_aggregate_custom(&pkg, &shares, &keyonly, CheaterDetection::Disabled)) {
+                    (Ok(a), Ok(b)) if a == b => o.count("key_only_package_aggregations", 1),
+                    (Ok(_), Ok(_)) => o.fail(format!("{tag}/aggregate-modes-differ"), format!("{ctx}: Disabled with a key-only public key package returns another signature")),
+                    (Ok(_), Err(e)) => o.fail(format!("{tag}/aggregate-custom-failed"), format!("{ctx}: aggregate_custom(Disabled) with a public key package that holds only the group key: {e:?}")),
+                    (Err(e), _) => o.fail(format!("{tag}/aggregate-failed"), format!("{ctx}: {e:?}")),
+                }
+            }
         }
         "tr-tweak-none" | "tr-tweak-empty" | "tr-tweak-root" => {
             // the Taproot crate's tweak entry points: signers and coordinator use the same root
